@@ -129,6 +129,7 @@ void ep2_norm_sim(ep2_t *r, const ep2_t *t, int n) {
 		for (i = 0; i < n; i++) {
 			fp2_copy(r[i]->x, t[i]->x);
 			fp2_copy(r[i]->y, t[i]->y);
+			r[i]->coord = t[i]->coord;
 			if (!ep2_is_infty(t[i])) {
 				fp2_copy(r[i]->z, a[i]);
 			}
